@@ -222,6 +222,7 @@ func checkC05(c *Ctx) {
 	ruleUnparsedScan(c)
 	ruleLooseAgree(c)
 	ruleEmphClear(c)
+	ruleUnparsedReturn(c)
 	c.Assume("delimiter-stack dependent clauses (no unparsed node remains, no link contains a link), numeric accessor ranges and wrap's slicing of existing children are not decided")
 }
 
